@@ -10,7 +10,20 @@ import cybuild
 
 SENTINELS = [-1, 0, 7]
 KINDS = ["ev", "evq", "star", "noexc"]
-TYPES = [("int", "i"), ("long long", "q"), ("double", "d")]
+TYPES = [("int", "i"), ("long long", "q"), ("double", "d"), ("unsigned char", "B"), ("unsigned short", "H"), ("signed char", "b"),
+         ("unsigned int", "I")]
+WIDTH = {"B": (8, 0), "H": (16, 0), "b": (8, 1), "I": (32, 0)}
+
+
+def cast_to(tc, v):
+    """value of the C cast (T)v for the small integer types (sentinels such as -1 on an unsigned return type)"""
+    if tc not in WIDTH:
+        return v
+    w, sg = WIDTH[tc]
+    v &= (1 << w) - 1
+    if sg and v >> (w - 1):
+        v -= 1 << w
+    return v
 
 
 def decl_suffix(kind, s, ctype):
@@ -81,7 +94,12 @@ def run(ctx):
     cases = []
     rng = ctx.rng
     for name, kind, s, tc, gil, defkind in table:
-        xs = [s - 1, s, s + 1, 0] + [rng.randrange(-1000, 1000) for _ in range(ctx.n(2, 30))]
+        sc = cast_to(tc, s)
+        xs = [sc - 1, sc, sc + 1, 0] + [rng.randrange(-1000, 1000) for _ in range(ctx.n(2, 30))]
+        if tc in WIDTH:
+            w, sg = WIDTH[tc]
+            lo, hi = (-(1 << (w - 1)), (1 << (w - 1)) - 1) if sg else (0, (1 << w) - 1)
+            xs = sorted(set(x for x in xs + [lo, hi, hi - 1] if lo <= x <= hi))
         if tc == "v":
             xs = [0]
         for x in xs:
@@ -93,7 +111,7 @@ def run(ctx):
     outs = cybuild.run_cases(ctx, so, [("call", "(%r, %d, %d)" % (c[0], c[4], c[5])) for c in cases])
     mlines = []
     for name, kind, s, tc, mode, x in cases:
-        ev = "none" if kind in ("star", "noexc") else str(s)
+        ev = "none" if kind in ("star", "noexc") else str(cast_to(tc, s))
         ec = "1" if kind in ("evq", "star") else "0"
         mlines.append("C32 %s %s %s" % (ev, ec, "raise" if mode else str(0 if tc == "v" else x)))
     mouts = ctx.drv.batch(mlines)
@@ -101,6 +119,7 @@ def run(ctx):
         impl = eval(got[len("ok str:"):]) if got.startswith("ok str:") else got
         model = mo[3:] if mo.startswith("ok ") else mo
         exp = expected(kind, s, mode, x, tc)
+        s = cast_to(tc, s)      # the sentinel as a value of the return type
         ctx.count("%s/%s/%s" % (kind, tc, "raise" if mode else ("sentinel" if x == s and kind in ("ev", "evq") else "ret")))
         ctx.seen((name, mode, x), nontrivial=bool(mode) or (x == s and kind in ("ev", "evq")))
         rep = {"name": name, "kind": kind, "s": s, "tc": tc, "mode": mode, "x": x, "impl": impl, "expected": exp}
